@@ -1010,7 +1010,10 @@ def srs(
         raise ValueError("Q must be > 0.5 since SRS assumes underdamped equations.")
 
     (coeffunc, methfunc, rollfunc, ptr) = _process_inputs(stype, peak, rolloff, time)
-    freq = np.atleast_1d(freq)
+    # (double precision: the parallel path stores `wn` in a double
+    # precision shared array, so single precision frequencies would
+    # give different results with and without parallel processing)
+    freq = np.atleast_1d(freq).astype(float)
     wn = 2 * pi * freq
     LF = len(freq)
     sig = np.atleast_1d(sig)
